@@ -164,6 +164,15 @@ def pipeline_world(variant):
         reads.append(W.read_of("nd_%d" % i, "chr2", nov_d, strand="-"))
         reads.append(W.read_of("ig1_%d" % i, "chr1", inter))
         reads.append(W.read_of("ig2_%d" % i, "chr2", inter))
+    # an annotated gene whose reads form two disjoint clusters, each giving a model of that gene (gene record must stay unique)
+    from vlib import mix
+    w["genes"].append({"id": "G6", "chr": "chr1", "strand": "+", "transcripts": [{"id": "T8", "exons": [list(e) for e in mix.G6_EXONS]}]})
+    syn.plant_for_transcripts(w)
+    W.add_sites_for_blocks(w, "chr1", [mix.G6_EXONS[i] for i in (0, 2, 3)], "+")
+    W.add_sites_for_blocks(w, "chr1", [mix.G6_EXONS[i] for i in (4, 6, 7)], "+")
+    for i in range(6):
+        reads.append(W.read_of("h1_%d" % i, "chr1", [mix.G6_EXONS[k] for k in (0, 2, 3)]))
+        reads.append(W.read_of("h2_%d" % i, "chr1", [mix.G6_EXONS[k] for k in (4, 6, 7)]))
     if variant == "extra":
         nov_e = W.exons(1000, [1, 2, 3, 4, 5])
         W.add_sites_for_blocks(w, "chr1", nov_e, "+")
